@@ -371,3 +371,14 @@ def run(ctx):
                                         [symeval.eval_expr_string("a+c").num, symeval.eval_expr_string("b+d").num])
                 and not _nonzero_known(symeval.eval_expr_string("a+b").num, [symeval.eval_expr_string("a+c").num]),
                 "guard implication: product covered, unrelated sum not covered")
+
+CLAIM = {
+    "level": "Static proof of the formula clause: each of the 25 compute_from_abcd bodies is folded into a rational function of "
+             "a,b,c,d and shown identical to its reference definition for ALL tables (cross-multiplication); guards are checked "
+             "against the denominators/log arguments of every path; the 2x2 counting is checked as four minterms; entry-point wiring "
+             "and inf->NaN are structural. Numbers on concrete data are not examined.",
+    "note": "Trusted: CPython ast, vsa FORM engine (polynomial arithmetic over Q), /verif/tables/contingency.json, real-arithmetic "
+            "reading of numpy division/log, non-negativity of counts. Interval.within is decided in C07. Not decided: resampling variant.",
+    "technique": "static analysis: AST def-use folding to rational-function normal form, identity by cross-multiplication; "
+                 "guard/denominator divisibility; minterm pattern",
+}
